@@ -34,7 +34,7 @@ func init() {
 		Check:           c04Check,
 		DistinctClasses: []string{"carrier"},
 		MinEvaluations:  func(tier string) int64 { return 5000 },
-		RequiredCounts:  []string{"positions_checked", "tokens_checked", "error_locations_checked", "load_errors", "loaded_multi_source", "validation_error_locations"},
+		RequiredCounts:  []string{"positions_checked", "tokens_checked", "error_locations_checked", "lexical_error_extents_checked", "load_errors", "loaded_multi_source", "validation_error_locations", "validated_two_source_documents"},
 	})
 }
 
@@ -45,17 +45,18 @@ type srcInfo struct {
 	starts map[int]ref.Tok // reference token starts
 	lexOK  bool
 	lexWhy string // why the reference lexer gave no frame of reference
+	failAt, failEnd int // reference lexer failed: extent [start of the failing lexeme, character that rules it out]; -1 otherwise
 	runes  []rune
 }
 
 func newSrcInfo(s *ast.Source) *srcInfo {
-	si := &srcInfo{src: s, li: ref.NewLineIndex(s.Input), starts: map[int]ref.Tok{}, runes: []rune(s.Input)}
+	si := &srcInfo{src: s, li: ref.NewLineIndex(s.Input), starts: map[int]ref.Tok{}, runes: []rune(s.Input), failAt: -1, failEnd: -1}
 	// the frame of reference for positions: the October 2021 lexer, except that (a) a block string closed by more than three
 	// quotes is read as the library reads it on purpose (finding F-C03-03, C03's business) and (b) characters above U+FFFF
 	// are source characters, as in the later drafts the library follows (Lex abstains on them)
 	rr := ref.Lex(s.Input)
 	if rr.Abstain == "non-bmp-source-character" || rr.Abstain == "surrogate-escape" || (rr.Abstain == "" && strings.Contains(s.Input, `""""`)) {
-		if fr := ref.LexFrame(s.Input); fr.Abstain == "" && !fr.Failed {
+		if fr := ref.LexFrame(s.Input); fr.Abstain == "" {
 			rr = fr
 		}
 	}
@@ -65,6 +66,7 @@ func newSrcInfo(s *ast.Source) *srcInfo {
 		si.lexWhy = "abstain:" + rr.Abstain
 	} else {
 		si.lexWhy = "fails:" + rr.Reason
+		si.failAt, si.failEnd = rr.FailAt, rr.FailEnd
 	}
 	for _, t := range rr.Toks {
 		si.starts[t.Start] = t
@@ -394,6 +396,9 @@ func (pc *posChecker) checkErrorLocation(entry string, err *gqlerror.Error, only
 		}
 		if lexical || !si.lexOK {
 			x.Count("lexical_error_locations")
+			if lexical {
+				pc.checkLexemeExtent(entry, si, off, err.Message)
+			}
 			continue
 		}
 		if _, isStart := si.starts[off]; !isStart && off != si.li.NChars() {
@@ -403,6 +408,19 @@ func (pc *posChecker) checkErrorLocation(entry string, err *gqlerror.Error, only
 			}
 			x.Violate("error("+entry+"):not-token-start", fmt.Sprintf("line %d column %d (offset %d): %s", loc.Line, loc.Column, off, err.Message), "the start of a token")
 		}
+	}
+}
+
+// checkLexemeExtent: a lexical error is located inside the text that is not a token - from the start of the failing lexeme
+// (where the reference lexer fails too) to the character that rules the lexeme out, not before it and not after it.
+func (pc *posChecker) checkLexemeExtent(entry string, si *srcInfo, off int, msg string) {
+	if si.failAt < 0 {
+		return
+	}
+	pc.x.Count("lexical_error_extents_checked")
+	if off < si.failAt || off > si.failEnd {
+		pc.x.Violate("error("+entry+"):outside-failing-lexeme("+strings.TrimPrefix(si.lexWhy, "fails:")+")", fmt.Sprintf("offset %d: %s", off, msg),
+			fmt.Sprintf("an offset in [%d,%d], the characters that fail to form a token", si.failAt, si.failEnd))
 	}
 }
 
@@ -416,9 +434,12 @@ func (pc *posChecker) checkTokens(s *ast.Source) {
 			if ge, ok := err.(*gqlerror.Error); ok {
 				// lexical error: bounds only
 				for _, loc := range ge.Locations {
-					if _, ok := si.li.Offset(loc.Line, loc.Column); !ok {
+					off, ok := si.li.Offset(loc.Line, loc.Column)
+					if !ok {
 						x.Violate("error(lexer):out-of-range", fmt.Sprintf("line %d column %d: %s", loc.Line, loc.Column, ge.Message), "a position inside the source")
+						continue
 					}
+					pc.checkLexemeExtent("lexer", si, off, ge.Message)
 				}
 				x.Count("error_locations_checked")
 			}
@@ -459,6 +480,9 @@ func c04Run(x *core.Ctx) {
 			toks := rn.DocTokens(d)
 			c2 := core.NewCase("query", "src", rn.Text(mutateTokens(r, toks)))
 			x.Do(c2, func() { c04Check(x, c2) })
+			// a variant that is not even a token sequence: where the lexical error is reported
+			c3 := core.NewCase("query", "src", c04LexFault(r, src))
+			x.Do(c3, func() { c04Check(x, c3) })
 		case 2:
 			d := gen.SchemaDoc(r, &gen.SOpts{Hostile: i%8 < 4, KeywordNames: i%3 == 0})
 			src := rn.RenderSDoc(d)
@@ -473,10 +497,30 @@ func c04Run(x *core.Ctx) {
 			toks := rn.SDocTokens(d)
 			c2 := core.NewCase("schema", "src", rn.Text(mutateTokens(r, toks)))
 			x.Do(c2, func() { c04Check(x, c2) })
+			c3 := core.NewCase("schema", "src", c04LexFault(r, src))
+			x.Do(c3, func() { c04Check(x, c3) })
 		case 3:
 			c04Typed(x, r, rn, i)
 		}
 	}
+}
+
+// c04LexFaults are texts that are not tokens (one per way a lexeme can fail, several lengths of each).
+var c04LexFaults = []string{"0123", "-007", "00", "01", "-00.5", "0009e1", "1.", "1.x", "-", "-x", "1e", "1e+", "2.5e-", "1.5x", "12abc", "1.2.3", "1..2", "0x1F", ".", "..", ". ..",
+	"?", "~", "%", "^", "\u0007", "\"unterminated", "\"bad \\q escape\"", "\"\\u12G4\"", "\"\\u12\"", "\"tab\there \\x\"", "\"line\nbreak\"", "\"\"\"never closed", "\"\"\"ctl \u0001 \"\"\"",
+	"\"ctl \u0002\"", "\"é\\z\"", "0123456789", "-0000", "1e٣"}
+
+// c04LexFault puts one such text in front of a token of the source (or at its end).
+func c04LexFault(r *core.Rand, src string) string {
+	rr := ref.LexFrame(src)
+	f := c04LexFaults[r.Intn(len(c04LexFaults))]
+	if rr.Abstain != "" || rr.Failed || len(rr.Toks) == 0 || r.Chance(1, 12) {
+		return src + " " + f
+	}
+	t := rr.Toks[r.Intn(len(rr.Toks))]
+	rs := []rune(src)
+	sep := r.Pick(" ", "\n", ",", "\r\n", "\t")
+	return string(rs[:t.Start]) + f + sep + string(rs[t.Start:])
 }
 
 // c04CloseRun lengthens the closing quotes of one block string of the text to a run of four or five.
